@@ -121,6 +121,11 @@ struct Globals {
   // lets a thread be delayed between publishing something and its next plain
   // access (use-after-publish bugs); drawn per run
   int post_pts = 0;
+  // post-publish stall (cfg post_stall = den, needs post_pts): at a P_POST point the
+  // running thread is, with chance 1/den, kept off the CPU for a drawn number of
+  // steps while anybody else can run — "publisher pre-empted right after publishing"
+  uint32_t post_stall_den = 0;
+  int stall_tid = -1; uint64_t stall_to = 0; int cur_kind = 0;
   int relseq17 = 0;  // happens-before clocks follow the C++11-17 release-sequence rule (mem.cc loc_store)
   uint32_t jump_den = 0;
   Config pub{};
